@@ -55,7 +55,8 @@ def measure_1site(self, O, site=None) -> dict:
         return_one = False
 
     out = {}
-    for site, ops in opdict.items():
+    for site in sites:  # operators may be given for more sites than requested
+        ops = opdict[site]
         lenv = self[site]
         ten = self.psi[site]
         vect = (lenv.l @ lenv.tl) @ (lenv.t @ lenv.tr)
